@@ -103,7 +103,7 @@ def make_h(tier):
         off = ctx.pick("offset", (0, 1, 3))
         at_end = ctx.flag("run_at_end_of_last_file") if lang == "python" else False
         minocc = ctx.int("min_occurrences", 1)
-        decoys = ctx.flag("decoy_files_with_same_lines_in_other_order")
+        decoys = ctx.flag("decoy_files_with_same_lines_in_other_order") if (style == "plain" or not quick) else False
         files = {}
         for t in layout.replace("-only-once", "").split("+"):
             files[t] = files.get(t, 0) + 1
